@@ -517,7 +517,7 @@ def run(ck: Check):
             det = dict(replay_kind="metamorphic", wrapper=w, detector=cls, ref=jl(ref), test=jl(test), data_kind=kind, seed=pi)
             r1 = run_wrapper(w, perm_r, perm_t, {}, seed=pi)
             skip_p = w == "BWS" and not exact_bws
-            if w == "Welch" and (len(set(ref.tolist())) == 1 or len(set(test.tolist())) == 1) and not close(b0[1], r1[1], tol, 1e-9):
+            if r1[0] == "ok" and w == "Welch" and (len(set(ref.tolist())) == 1 or len(set(test.tolist())) == 1) and not close(b0[1], r1[1], tol, 1e-9):
                 ck.near_ties += 1  # zero variance: rounding noise in the mean decides a 0/0
             elif r1[0] != "ok" or not arr_close(b0[1], r1[1], tol, 1e-9) or not (skip_p or arr_close(b0[2], r1[2], tol, 1e-12)):
                 ck.violation(dict(clause="sample-order", detector=cls), dict(det, what="result changes when the samples are reordered", ref_perm=jl(perm_r), test_perm=jl(perm_t), got=[jl(x) for x in b0[1:]], permuted=[jl(x) for x in r1[1:]]))
@@ -747,6 +747,64 @@ def run(ck: Check):
             tabx = f"(chi_table Z.eqb {z_list(pv)} {z_list(map(int, ref))} {z_list(map(int, test))})"
             add(f"({tabx}, chi2_stat (A:=FloatA) {lam_cell(kw.get('lambda_'))} {'true' if kw.get('correction', True) else 'false'} {tabx})", chk_chi, "chi_table / chi2_stat (FloatA) vs ChiSquareTest")
 
+    # ---------------- (own generator) an option passed to ONE compare() must not outlive that call: a later compare()
+    # without options, on the same instance and on a new instance, gives the default result again
+    import random as _random
+
+    prng = _random.Random(121212)
+    STICKY = {
+        "AD": [{"midrank": False}], "BWS": [{"alternative": "less"}, {"alternative": "greater"}],
+        "CVM": [{"method": "asymptotic"}], "MWU": [{"alternative": "less"}, {"use_continuity": False}, {"method": "asymptotic"}],
+        "Welch": [{"alternative": "less"}, {"alternative": "greater"}, {"trim": 0.2}],
+        "Chi": [{"correction": False}, {"lambda_": "log-likelihood"}],
+    }
+    for w, optl in STICKY.items():
+        for kw in optl:
+            if w == "Chi":
+                ref = np.array([prng.choice("abc") for _ in range(40)])
+                test = np.array([prng.choice("aabc") for _ in range(30)])
+            else:
+                ref = np.array([prng.gauss(0, 1) for _ in range(9)])
+                test = np.array([prng.gauss(0.8, 1.5) for _ in range(7)])
+            try:
+                det = det_cls(w)()
+                det.fit(X=ref)
+                np.random.seed(4242)  # BWS / permutation-based defaults draw from the global generator
+                r0 = det.compare(X=test)[0]
+                det.compare(X=test, **kw)
+                np.random.seed(4242)
+                r1 = det.compare(X=test)[0]
+                det2 = det_cls(w)()
+                det2.fit(X=ref)
+                np.random.seed(4242)
+                r2 = det2.compare(X=test)[0]
+            except Exception as e:  # noqa: BLE001
+                ck.violation(dict(clause="raises", detector=W[w]["cls"], scenario="option-then-default"), dict(detector=W[w]["cls"], option=kw, error=repr(e), ref=ref.tolist(), test=test.tolist()))
+                continue
+            ck.case(dict(kind="option-then-default", detector=W[w]["cls"], option=kw), nontrivial=True, key=repr(("sticky", w, kw)))
+            ck.count("option_then_default_cases")
+            same = lambda a, b_: (float(a.statistic) == float(b_.statistic) or (math.isnan(float(a.statistic)) and math.isnan(float(b_.statistic)))) and (float(a.p_value) == float(b_.p_value) or (math.isnan(float(a.p_value)) and math.isnan(float(b_.p_value))))  # noqa: E731
+            if not (same(r0, r1) and same(r0, r2)):
+                ck.violation(dict(clause="options-honoured", detector=W[w]["cls"], cause="option-outlives-call"),
+                             dict(what="after one compare() with an option, a compare() without options no longer returns the default result", detector=W[w]["cls"], option=kw,
+                                  default_before=[float(r0.statistic), float(r0.p_value)], default_after_same_instance=[float(r1.statistic), float(r1.p_value)], default_new_instance=[float(r2.statistic), float(r2.p_value)], ref=ref.tolist(), test=test.tolist()))
+    # ---------------- Kuiper on long, strongly shifted samples (effective size n*m/(n+m) above 1000, D > 0.5): the series
+    # multiplies binomial coefficients that overflow to inf by powers that underflow to 0; p must stay a number in [0, 1]
+    for n, m in ([(2500, 2500), (2100, 6000)] if not thorough else [(2500, 2500), (3000, 4000), (2100, 6000), (5000, 2600)]):
+        ref = np.arange(n, dtype=float)
+        test = np.arange(m, dtype=float) + 0.6 * n + 0.5
+        try:
+            det = det_cls("Kuiper")()
+            det.fit(X=ref)
+            res = det.compare(X=test)[0]
+            pv = float(res.p_value)
+        except Exception as e:  # noqa: BLE001
+            ck.violation(dict(clause="raises", detector="KuiperTest", scenario="long-shifted"), dict(sizes=[n, m], error=repr(e)))
+            continue
+        ck.case(dict(kind="kuiper-long-shifted", n=n, m=m, p=pv), nontrivial=True, key=repr(("kuiper-long", n, m)))
+        ck.count("kuiper_long_cases")
+        if math.isnan(pv) or not (0.0 <= pv <= 1.0):
+            ck.violation(dict(clause="p-range", detector="KuiperTest", regime="long-shifted"), dict(what="Kuiper p-value is NaN or outside [0, 1] for long, strongly shifted samples", sizes=[n, m], statistic=float(res.statistic), p_value=repr(pv), construction="ref = arange(n), test = arange(m) + 0.6 n + 0.5"))
     # ---------------- forwarding: model's predicted call vs the call observed by the spy
     FOREIGN = ["X", "X_ref", "equal_var", "foo", "alternative", "method", "correction", "nan_policy", "midrank"]
     VALUES = ["two-sided", "less", "auto", "exact", "raise", "omit", True, False, None, 0, 3, 0.1, 0.5, "OBJ"]
